@@ -16,33 +16,59 @@ def _unmodified(f, *args):
         raise Modified()
     return r
 
+class Aliased(Exception):
+    pass
+
+def _scramble(v):
+    """destroy a returned value in place (nested lists), to expose results that alias internal state"""
+    if isinstance(v, list):
+        for x in v:
+            _scramble(x)
+        v.clear()
+        v.append("?")
+
+def _stable(call):
+    """call() twice with fresh arguments; the first result is destroyed in place before the second call:
+    the second result must equal the first (a result must never share structure with a cache)"""
+    r1 = call()
+    if hasattr(r1, "__next__"):
+        r1 = list(r1)
+    snap = copy.deepcopy(r1)
+    _scramble(r1)
+    r2 = call()
+    if hasattr(r2, "__next__"):
+        r2 = list(r2)
+    if r2 != snap:
+        raise Aliased()
+    return r2
+
 def register(op):
     from dsdobjects import complex_utils as cu
 
     @op("make_pair_table")
     def _(a):
         ss, brk, ign = a
-        return cu.make_pair_table(ss, strand_break=brk, ignore=set(ign))
+        return _stable(lambda: cu.make_pair_table(list(ss), strand_break=brk, ignore=set(ign)))
 
     @op("pair_table_to_dot_bracket")
     def _(a):
         pt, brk = a
-        return _unmodified(lambda p: cu.pair_table_to_dot_bracket(p, strand_break=brk), _tup(pt))
+        return _stable(lambda: _unmodified(lambda p: cu.pair_table_to_dot_bracket(p, strand_break=brk), _tup(pt)))
 
     @op("make_strand_table_list")
     def _(a):
         seq, brk = a
-        return _unmodified(lambda s: cu.make_strand_table(s, strand_break=brk), list(seq))
+        return _stable(lambda: _unmodified(lambda s: cu.make_strand_table(s, strand_break=brk), list(seq)))
 
     @op("make_strand_table_str")
     def _(a):
         seq, brk = a
-        return cu.make_strand_table("".join(seq), strand_break=brk)
+        return _stable(lambda: cu.make_strand_table("".join(seq), strand_break=brk))
 
     @op("strand_table_to_sequence")
     def _(a):
         st, brk = a
-        return _unmodified(lambda s: cu.strand_table_to_sequence(s, strand_break=brk), st)
+        return _stable(lambda: _unmodified(lambda s: cu.strand_table_to_sequence(s, strand_break=brk), copy.deepcopy(st)))
 
     @op("strand_table_join")
     def _(a):
@@ -51,40 +77,40 @@ def register(op):
 
     @op("make_loop_index")
     def _(a):
-        li, ext = _unmodified(cu.make_loop_index, _tup(a))
+        li, ext = _stable(lambda: list(_unmodified(cu.make_loop_index, _tup(a))))
         # the exterior set is compared in insertion order of the model: loops are
         # added in increasing order of first occurrence, which need not be sorted
         return [li, sorted(ext)]
 
     @op("make_loop_index_comp")
     def _(a):
-        li, ext = _unmodified(lambda p: cu.make_loop_index(p, components=True), _tup(a))
+        li, ext = _stable(lambda: list(_unmodified(lambda p: cu.make_loop_index(p, components=True), _tup(a))))
         return [li, ext]
 
     @op("split_complex_pt")
     def _(a):
         st, pt = a
-        return _unmodified(lambda s, p: list(cu.split_complex_pt(s, p)), st, _tup(pt))
+        return _stable(lambda: _unmodified(lambda s, p: [list(x) for x in cu.split_complex_pt(s, p)], copy.deepcopy(st), _tup(pt)))
 
     @op("rotate_complex_pt")
     def _(a):
         st, pt, turns = a
-        return _unmodified(lambda s, p: list(cu.rotate_complex_pt(s, p, turns=turns)), st, _tup(pt))
+        return _stable(lambda: _unmodified(lambda s, p: [list(x) for x in cu.rotate_complex_pt(s, p, turns=turns)], copy.deepcopy(st), _tup(pt)))
 
     @op("rotate_complex_once")
     def _(a):
         seq, sst = a
-        return _unmodified(lambda s, t: cu.rotate_complex_once(s, t), list(seq), list(sst))
+        return _stable(lambda: list(_unmodified(lambda s, t: cu.rotate_complex_once(s, t), list(seq), list(sst))))
 
     @op("rotate_complex_db")
     def _(a):
         seq, sst = a
-        return _unmodified(lambda s, t: list(cu.rotate_complex_db(s, t)), list(seq), list(sst))
+        return _stable(lambda: _unmodified(lambda s, t: [list(x) for x in cu.rotate_complex_db(s, t)], list(seq), list(sst)))
 
     @op("split_complex_db")
     def _(a):
         seq, sst = a
-        return _unmodified(lambda s, t: list(cu.split_complex_db(s, t)), list(seq), list(sst))
+        return _stable(lambda: _unmodified(lambda s, t: [list(x) for x in cu.split_complex_db(s, t)], list(seq), list(sst)))
 
     @op("wrap")
     def _(a):
